@@ -927,6 +927,7 @@ def _drive_fault(job, em, tb_fd, marker_fd):
     failed = False
     pending_close = False
     pending_gate_op = None  # scripted op whose sleepers stay gated until close() has come back
+    plain_gated = False  # plain close() with a worker that is already dead and a gated sleeper
     t_sleep = job.get("tmo", T_SHORT)
     first_cmd = script[fault_ops[0]]
     detail = {
@@ -978,8 +979,18 @@ def _drive_fault(job, em, tb_fd, marker_fd):
                     em.violate("healthy_op", f"raised_{_exc_name(val)}", cmd + "_async", message=str(val)[:200], **detail)
                 if job.get("settle"):
                     time.sleep(float(job["settle"]))
-                if job.get("close", "plain") == "plain":
+                dead_with_sleeper = False
+                if job.get("close", "plain") == "plain" and sleepy and any(FAMILY[kd] == "kill" for kd in kinds_here):
+                    # a killed worker TOGETHER with a gated sleeper: once the victim is really dead, a plain close()
+                    # has nothing to negotiate any more and must not wait for the sleeper either (gate stays shut)
+                    victims = [pids[f["w"]] for f in here if FAMILY[f["kind"]] == "kill" and f["w"] < len(pids)]
+                    t_end = time.monotonic() + 3.0
+                    while time.monotonic() < t_end and any(_alive(p) for p in victims):
+                        time.sleep(0.02)
+                    dead_with_sleeper = bool(victims) and not any(_alive(p) for p in victims)
+                if job.get("close", "plain") == "plain" and not dead_with_sleeper:
                     release(i, after=SLEEP_S)
+                plain_gated = dead_with_sleeper
                 pending_gate_op = i
                 failed = True
                 pending_close = True
@@ -1085,13 +1096,14 @@ def _drive_fault(job, em, tb_fd, marker_fd):
     em.op("post_close", seconds=round(dt, 3))
     em.extra("close_seconds", round(dt, 3))
     trig = _read_marker(marker_fd)
-    gated = pending_gate_op is not None and variant != "plain" and any(j in gates and _op_index(f) == pending_gate_op for j, f in enumerate(faults))
+    gated = pending_gate_op is not None and (variant != "plain" or plain_gated) and any(j in gates and _op_index(f) == pending_gate_op for j, f in enumerate(faults))
     if gated:
         # close(terminate=True) / close(timeout=t) on a call that is pending on a gated sleeper: the gate is still
         # shut here (it is only opened below), so close() must have come back without that worker's reply.  A
         # sleeper that left its gate on its own (SLEEP_MAX_S) before close() returned means close() waited for it.
         em.hit("close_on_gated_sleeper_checks")
-        em.hit(f"close_on_gated_sleeper:{variant}" + (f"({kw.get('timeout')!r})" if variant == "timeout" else ""))
+        em.hit(f"close_on_gated_sleeper:{variant}" + (f"({kw.get('timeout')!r})" if variant == "timeout" else "")
+               + ("+dead_worker" if plain_gated else ""))
         at_gate = [t for t in trig if t["kind"] == "sleep" and _op_index(t) == pending_gate_op]
         if at_gate:
             em.hit("close_on_gated_sleeper_reached_gate")
@@ -1645,6 +1657,12 @@ def _fault_cases(tier, seed):
                         )
                     )
                     j += 1
+        for cmd in ("reset", "step", "call"):
+            # a pending call, one worker dead, a LOWER- or higher-indexed worker hung: plain close()
+            for (ka, kb) in (("sleep", "kill_sigkill"), ("kill_exit", "sleep"), ("sleep", "kill_exit")):
+                ne = 2 + ri(2)
+                nn = ri(3)
+                out.append(_fault_case(ne, [_F(0, cmd, nn, ka), _F(ne - 1, cmd, nn, kb)], mode="async_none", phase="close", close="plain", settle=0.2))
         for pi, (k1, k2) in enumerate(PAIR_KINDS):
             for ci, cmd in enumerate(CMDS):
                 if (pi + ci) % 4 == 3:
@@ -1684,6 +1702,13 @@ def _fault_cases(tier, seed):
                         for ne, w in ((2, 0), (2, 1), (3, 1)):
                             out.append(_fault_case(ne, [_F(w, cmd, j % 4, kind)], mode="async_none", phase="close", close=close, settle=settle))
                             j += 1
+        for rep in range(4):
+            for cmd in ("reset", "step", "call"):
+                for (ka, kb) in (("sleep", "kill_sigkill"), ("kill_sigkill", "sleep"), ("kill_exit", "sleep"), ("sleep", "kill_exit")):
+                    ne = 2 + ri(2)
+                    nn = ri(4)
+                    wa, wb = (0, ne - 1) if rep % 2 == 0 else (ne - 2, ne - 1)
+                    out.append(_fault_case(ne, [_F(wa, cmd, nn, ka), _F(wb, cmd, nn, kb)], mode="async_none", phase="close", close="plain", settle=0.2 if rep < 2 else 0.0))
         for rep in range(8):
             for pi, (k1, k2) in enumerate(PAIR_KINDS):
                 for ci, cmd in enumerate(CMDS):
